@@ -8,6 +8,7 @@ import (
 	"github.com/berquerant/crd/input/ast"
 	"github.com/berquerant/crd/op"
 	vf "github.com/berquerant/crd/zz_verif"
+	"github.com/berquerant/crd/zz_verif/crdx"
 	"github.com/berquerant/crd/zz_verif/spec"
 	"github.com/spf13/cobra"
 )
@@ -875,5 +876,124 @@ func VerifC16ChordFiles() {
 		}
 		vf.Assert("chord-inherits-across-files", same)
 	}
+	vf.Reach("end")
+}
+
+var verifLetterNames = [7]string{"C", "D", "E", "F", "G", "A", "B"}
+
+func verifNoteText(letter, acc int) string {
+	return verifLetterNames[letter] + map[int]string{-1: "b", 0: "", 1: "#"}[acc]
+}
+
+// verifYAMLValues returns, in order, the values of every `name: value` line of a YAML text
+// (quotes stripped).
+func verifYAMLValues(text, name string) []string {
+	var out []string
+	for _, line := range strings.Split(text, "\n") {
+		t := strings.TrimLeft(line, " -")
+		if strings.HasPrefix(t, name+": ") {
+			out = append(out, strings.Trim(strings.TrimPrefix(t, name+": "), "'\""))
+		}
+	}
+	return out
+}
+
+// VerifC03KeyFlag: `text conv syllable --key K` through the real command, for each of the 28
+// supported keys: the seven notes of K's own scale come out as the scale's own degrees
+// (1 2 3 4 5 6 7, or 1 2 b3 4 5 b6 b7 in a minor key) — the key given on the command line is
+// the key that is used, spelled as given.
+func VerifC03KeyFlag() {
+	_, l, a, minor := crdx.SupportedKey("k")
+	sig := spec.Signature(l, a, minor)
+	text := ""
+	for i := 0; i < 7; i++ {
+		text += verifNoteText((l+i)%7, spec.AccidentalInKey((l+i)%7, sig)) + "[1] "
+	}
+	in := vf.TempPath("keyflag-in.txt")
+	verifReset(in)
+	defer verifReset(in)
+	os.WriteFile(in, []byte(text), 0o644)
+	keyText := verifNoteText(l, a) + map[bool]string{true: "m", false: ""}[minor]
+	vf.Assert("flags-parse", textCmdConvSyllable.ParseFlags([]string{"--output", "", "--key", keyText}) == nil)
+	out, err := verifCapture("keyflag-out.txt", func() error { return textCmdConvSyllable.RunE(textCmdConvSyllable, []string{in}) })
+	vf.Assert("scale-notes-always-accepted", err == nil && out != "")
+	got := verifYAMLValues(out, "degree")
+	want := []string{"1", "2", "3", "4", "5", "6", "7"}
+	if minor {
+		want = []string{"1", "2", "b3", "4", "5", "b6", "b7"}
+	}
+	same := len(got) == len(want)
+	for i := 0; same && i < len(want); i++ {
+		same = got[i] == want[i]
+	}
+	vf.Assert("scale-note-maps-to-the-scales-own-degree", same)
+	vf.Reach("end")
+}
+
+// VerifC14ConvCmd: `info key conv --key K -c CHAIN` through the real command: the keys printed
+// are exactly the supported spellings of the key the chain leads to — also for chains that
+// cancel out (ds, pp, rr, dpps: every spelling of the start key).
+func VerifC14ConvCmd() {
+	_, l, a, minor := crdx.SupportedKey("k")
+	chain := []string{"d", "s", "r", "p", "ds", "sd", "pp", "rr", "dpps", "prrp", "rp", "ddd", "pd", "dddddddddddd"}[vf.NondetIntRange("chain", 0, 13)]
+	pc, m := spec.PitchClass(l, a), minor
+	for _, c := range chain {
+		pc, m = spec.Move(pc, m, map[rune]int{'d': spec.MoveDominant, 's': spec.MoveSubDominant, 'r': spec.MoveRelative, 'p': spec.MoveParallel}[c])
+	}
+	keyText := verifNoteText(l, a) + map[bool]string{true: "m", false: ""}[minor]
+	vf.Assert("flags-parse", infoKeyCmdConv.ParseFlags([]string{"--output", "", "--key", keyText, "--command", chain}) == nil)
+	out, err := verifCapture("conv-out.txt", func() error { return infoKeyCmdConv.RunE(infoKeyCmdConv, nil) })
+	vf.Assert("chain-succeeds", err == nil && out != "")
+	// every supported spelling of (pc, m), and nothing else
+	want := map[string]bool{}
+	for tl := 0; tl < 7; tl++ {
+		for ta := -1; ta <= 1; ta++ {
+			if spec.PitchClass(tl, ta) == pc && spec.IsListedKey(tl, ta, m) {
+				want[verifNoteText(tl, ta)+map[bool]string{true: "m", false: ""}[m]] = true
+			}
+		}
+	}
+	got := map[string]bool{}
+	for _, line := range strings.Split(out, "\n") {
+		if t := strings.Trim(strings.TrimLeft(line, " -"), "'\""); t != "" {
+			got[t] = true
+		}
+	}
+	same := len(got) == len(want)
+	for k := range want {
+		same = same && got[k]
+	}
+	vf.Assert("result-lists-exactly-the-spellings-of-the-target", same)
+	vf.Reach("end")
+}
+
+// VerifC11LongUnicode: a long text (beyond the input buffer size) written with ♯ gives the
+// same bytes as the same text written with #, wherever the signs happen to fall: the pad in
+// front shifts them through every position relative to the 4096-byte read boundary.
+func VerifC11LongUnicode() {
+	n := vf.Param("C11.longChords", 600)
+	vf.Unwind(400 * n)
+	pad := strings.Repeat(" ", vf.NondetIntRange("pad", 0, 7))
+	build := func(sharp string) string {
+		var sb strings.Builder
+		sb.WriteString(pad)
+		for i := 0; i < n; i++ {
+			sb.WriteString("C" + sharp + "[1]\n")
+		}
+		return sb.String()
+	}
+	in := vf.TempPath("longuni-in.txt")
+	verifReset(in)
+	defer verifReset(in)
+	vf.Assert("flags-parse", textCmdConvSyllable.ParseFlags([]string{"--output", "", "--key", "C"}) == nil)
+	run := func(text string) (string, error) {
+		os.WriteFile(in, []byte(text), 0o644)
+		return verifCapture("longuni-out.txt", func() error { return textCmdConvSyllable.RunE(textCmdConvSyllable, []string{in}) })
+	}
+	ascii, aerr := run(build("#"))
+	uni, uerr := run(build("♯"))
+	vf.Assert("ascii-spelling-converts", aerr == nil && ascii != "")
+	vf.Assert("unicode-sign-same-outcome", (uerr == nil) == (aerr == nil))
+	vf.Assert("unicode-sign-same-bytes-at-every-offset", uni == ascii)
 	vf.Reach("end")
 }
